@@ -22,7 +22,7 @@
     record by the key that record shows; without it the statement is false of the code (known finding
     mixed-type-category-dropped): C06_one_per_key_refuted, C06_keys_exact_refuted.  The accounting itself
     (C06_output_is_merged_class, C06_total_conserved, C06_weight_conserved) needs no typing hypothesis. *)
-From Coq Require Import List NArith ZArith Bool Permutation.
+From Coq Require Import List NArith ZArith Bool Permutation Sorted.
 From OBI.C06 Require Import Model Proofs.
 Import ListNotations.
 Open Scope N_scope.
@@ -241,6 +241,113 @@ Proof.
   - intros r H. cbn in H. repeat (destruct H as [H|H]; [subst r; cbn; discriminate|]). destruct H.
 Qed.
 
+
+(** ---------------------------------------------------------------------------------------------------- round 3
+    The class-code tables of AnnotationClassifier / SequenceClassifier ([code1] = Code(), [cvalue] = Value(), the empty
+    table = Reset / Clone; Model.v) and the splitting of a batch by ISequenceSubChunk ([coded]: every record gets its code,
+    any sort by code, [classes_of_sorted]: the maximal runs of equal codes).  The model is compared with the real classifier
+    objects (histories of Code / Value / Reset / Clone calls) and with the real ISequenceSubChunk on every run. *)
+
+(** Value(Code(v)) = v ... *)
+Theorem C06_classifier_value_of_code : forall tbl v, cvalue (snd (code1 tbl v)) (fst (code1 tbl v)) = Some v.
+Proof. exact code1_value. Qed.
+
+(** ... and a code stays decodable while further values are coded (until the next Reset) *)
+Theorem C06_classifier_code_stays_valid : forall tbl v k w, cvalue tbl k = Some w -> cvalue (snd (code1 tbl v)) k = Some w.
+Proof. exact code1_keeps. Qed.
+
+(** since the last Reset two records get the same code iff the classifier reads the same value from them *)
+Theorem C06_classifier_codes_separate : forall vs i j vi vj, nth_error vs i = Some vi -> nth_error vs j = Some vj ->
+  (nth_error (encode_from [] vs) i = nth_error (encode_from [] vs) j <-> vi = vj).
+Proof. exact codes_separate. Qed.
+
+(** the table after a batch lists the values in order of first appearance: the classes of [groups] *)
+Theorem C06_classifier_table_is_first_appearance : forall vs, table_after [] vs = dedup vs.
+Proof. exact table_is_dedup. Qed.
+
+(** histories of calls on one classifier object ([run_hist], compared step by step with the real objects): whatever
+    happened before — Resets included — a value coded at step [length pre] is returned by Value() of that code at any
+    later step, as long as no Reset (or Clone) occurs in between.  (False of the unchanged AnnotationClassifier, whose
+    Reset kept the code counter: fixed finding.) *)
+Theorem C06_classifier_value_after_code : forall pre v mid post, no_reset mid ->
+  nth_error (run_hist [] [] (pre ++ SCode v :: mid ++ SValue (length pre) :: post)) (length pre + 1 + length mid) = Some (OVal (Some v)).
+Proof. exact value_after_code. Qed.
+
+(** after a Reset the codes restart at 0 *)
+Theorem C06_classifier_reset_restarts : forall pre v, run_hist [] [] (pre ++ [SReset; SCode v]) = run_hist [] [] pre ++ [ONone; OCode 0].
+Proof. exact reset_restarts. Qed.
+
+Example C06_classifier_history_nonvacuous :
+  run_hist [] [] [SCode [1]; SCode [2]; SReset; SCode [2]; SCode [3]; SValue 3; SValue 4]
+  = [OCode 0; OCode 1; ONone; OCode 0; OCode 1; OVal (Some [2]); OVal (Some [3])] /\ no_reset [SCode [3]].
+Proof. split; [reflexivity | intros st [E|[]]; subst st; discriminate]. Qed.
+
+(** ISequenceSubChunk: WHATEVER rearrangement sorted by code sort.Sort (not stable) produces, the batches pushed (maximal
+    runs of equal code) are, in order, rearrangements of the classes [groups f b] the dereplication model works with
+    ([groups f l = groupsA f l] by definition) — the order inside a class is the only freedom, and
+    C06_order_hash_chunks_independent shows the output does not depend on it *)
+Theorem C06_subchunk_any_sort : forall (A : Type) (f : A -> list N) (b : list A) (s : list (nat * A)),
+  Permutation s (coded f b) -> StronglySorted le (map fst s) ->
+  Forall2 (@Permutation A) (classes_of_sorted s) (groupsA f b).
+Proof. exact @subchunk_any_sort. Qed.
+
+Theorem C06_subchunk_spec_is_groups : forall f l, groups f l = groupsA f l.
+Proof. exact groups_is_groupsA. Qed.
+
+(** with the stable sort the model evaluates (and sort.Sort on batches of at most 12 records), exactly the model's classes *)
+Theorem C06_subchunk_stable : forall (A : Type) (f : A -> list N) (b : list A), subchunk f b = groupsA f b.
+Proof. exact @subchunk_stable. Qed.
+
+(** obidemerge -d key:weight (slot k, attribute a): one record per entry of merged_<k>, carrying the value in attribute a
+    and the weight (at least 1: SetCount) as its count; same nucleotides, slot removed *)
+Theorem C06_demerge_weighted : forall a k r m, lookup k (umerged r) = Some m ->
+  map (fun r' => (lookup a (uann r'), ucount r')) (demerge1w a k r) = map (fun vw => (Some (strval (fst vw)), clamp1 (snd vw))) m /\
+  forall r', In r' (demerge1w a k r) -> useq r' = useq r /\ lookup k (umerged r') = None.
+Proof. exact demerge1w_spec. Qed.
+
+(** obiuniq -m key:w | obidemerge -d key:w | obiuniq -m key (slot s = key:w with descriptor [ds s], attribute a = key):
+    every record of the last dereplication is a record of the first one — same nucleotides, merged_<key> = the
+    merged_<key:w> map of the first pass, count = total of that map — provided the weights of the first pass are >= 1
+    (a weight < 1 demerges to a count of 1: SetCount, outside the property) and its records carry no other merged_<key>
+    map ([a = s] is obiuniq -m k | obidemerge -d k | obiuniq -m k with weighted or unweighted first pass) *)
+Theorem C06_demerge_weighted_inverse : forall na a s ds h n h' n' l, pos_counts l ->
+  (forall o m vw, In o (uniq h n [] ds [s] na false l) -> lookup s (umerged o) = Some m -> In vw m -> (1 <= snd vw)%Z) ->
+  (forall o, In o (uniq h n [] ds [s] na false l) -> a = s \/ lookup a (umerged o) = None) ->
+  forall o2, In o2 (uniq h' n' [] dflt [a] na false (demergew a s (uniq h n [] ds [s] na false l))) ->
+  exists o1 m1 m2, In o1 (uniq h n [] ds [s] na false l) /\ useq o2 = useq o1 /\
+    lookup s (umerged o1) = Some m1 /\ lookup a (umerged o2) = Some m2 /\
+    (forall v, stat_get v m2 = stat_get v m1) /\ ucount o2 = zsum snd m1.
+Proof. exact demergew_inverse. Qed.
+
+(** non-vacuity: three reads of one sequence, samples 5 / 6 / 5 with weights 5 / 7 / 2 (attribute 3), slot 4 = 1:3:
+    the first pass gives merged_4 = {5: 7, 6: 7} (weights >= 1, no merged_1), demerging gives two records of count 7 with
+    attribute 1 = 5 and 6, the last pass gives back merged_1 = {5: 7, 6: 7} and count 14 *)
+Example C06_demerge_weighted_nonvacuous :
+  let s5 := mkval 0 5 5 5 None in let s6 := mkval 0 6 6 6 None in let w := fun z => mkval 1 20 20 20 (Some z) in
+  let l := [mkrec [97] 1 [(1, s5); (3, w 5%Z)] []; mkrec [97] 2 [(1, s6); (3, w 7%Z)] []; mkrec [97] 1 [(1, s5); (3, w 2%Z)] []] in
+  let dsw : dspec := fun s => if s =? 4 then (1, Some 3) else (s, None) in
+  map (fun o => (lookup 4 (umerged o), lookup 1 (umerged o))) (uniq sum_hash 3 [] dsw [4] 9 false l) = [(Some [(5, 7%Z); (6, 7%Z)], None)] /\
+  map (fun o => (ucount o, lookup 1 (uann o))) (demergew 1 4 (uniq sum_hash 3 [] dsw [4] 9 false l)) = [(7%Z, Some s5); (7%Z, Some s6)] /\
+  map (fun o => (ucount o, lookup 1 (umerged o))) (uniq sum_hash 2 [] dflt [1] 9 false (demergew 1 4 (uniq sum_hash 3 [] dsw [4] 9 false l)))
+    = [(14%Z, Some [(5, 7%Z); (6, 7%Z)])].
+Proof. cbv zeta. repeat split; vm_compute; reflexivity. Qed.
+
+(** non-vacuity: an UNSTABLE sorted rearrangement of a coded batch (the two records of class [5] swapped) meets the
+    hypotheses of C06_subchunk_any_sort; its runs differ from the model's classes by the order inside the class only *)
+Example C06_subchunk_nonvacuous :
+  let b := [(1, [5]); (2, [6]); (3, [5])] in
+  let s := [(0%nat, (3, [5])); (0%nat, (1, [5])); (1%nat, (2, [6]))] in
+  coded snd b = [(0%nat, (1, [5])); (1%nat, (2, [6])); (0%nat, (3, [5]))] /\
+  Permutation s (coded snd b) /\ StronglySorted le (map fst s) /\
+  classes_of_sorted s = [[(3, [5]); (1, [5])]; [(2, [6])]] /\ groupsA snd b = [[(1, [5]); (3, [5])]; [(2, [6])]] /\
+  subchunk snd b = groupsA snd b.
+Proof.
+  cbv zeta. split; [reflexivity|]. split.
+  - change (coded snd [(1, [5]); (2, [6]); (3, [5])]) with [(0%nat, (1, [5])); (1%nat, (2, [6])); (0%nat, (3, [5]))].
+    eapply perm_trans; [apply perm_swap|]. apply perm_skip. apply perm_swap.
+  - split; [repeat constructor|]. split; [reflexivity|]. split; reflexivity.
+Qed.
+
 Print Assumptions C06_classes_exact.
 Print Assumptions C06_output_is_merged_class.
 Print Assumptions C06_one_per_key.
@@ -268,3 +375,14 @@ Print Assumptions C06_map_total_is_count.
 Print Assumptions C06_weights_positive.
 Print Assumptions C06_demerge_inverse.
 Print Assumptions C06_demerge_inverse_onto.
+Print Assumptions C06_classifier_value_of_code.
+Print Assumptions C06_classifier_code_stays_valid.
+Print Assumptions C06_classifier_codes_separate.
+Print Assumptions C06_classifier_table_is_first_appearance.
+Print Assumptions C06_subchunk_any_sort.
+Print Assumptions C06_subchunk_spec_is_groups.
+Print Assumptions C06_demerge_weighted.
+Print Assumptions C06_demerge_weighted_inverse.
+Print Assumptions C06_subchunk_stable.
+Print Assumptions C06_classifier_value_after_code.
+Print Assumptions C06_classifier_reset_restarts.
